@@ -20,7 +20,7 @@ RULE = (
     "plain dict, pre-serialised single-line JSON string (stdlib, both ensure_ascii modes, both separator styles), or an unserialisable object (object(), dict holding a set / bytes / lambda, "
     "self-referential list, object whose model_dump_json raises, a dict nested 3000 levels deep) at any position; payloads over JSON values with \\n, \\r, U+2028, NUL, quotes, astral characters, nested nulls, 64-bit ints; "
     "optionally server batches arriving d scheduler turns into the write of chosen items (the reader task then writes a -32600 rejection on the same stdin) and payloads beyond 64 KiB / 64-bit ints / deep nesting; "
-    "then the write stream is closed; oracle on the bytes recorded at the child's stdin: ends with LF, exactly one line per serialisable item in order, no raw CR/LF inside a line, each line "
+    "or the whole sequence queued at once (burst), incl. bursts whose frames add up to more than 64 KiB; then the write stream is closed; oracle on the bytes recorded at the child's stdin: ends with LF, exactly one line per serialisable item in order, no raw CR/LF inside a line, each line "
     "is UTF-8 JSON equal (type-strict) to the item with absent optional members omitted, unserialisable items leave no bytes, stdin closed after the write stream closes; "
     "non-trivial = an unserialisable item followed by a serialisable one, or a payload with a raw line-break character, or a nested null; distinct = distinct sequence"
 )
@@ -201,6 +201,10 @@ def check(case: Dict[str, Any]) -> Outcome:
                 for k_, (obj, _) in enumerate(built):
                     if inbound.get(k_) == -1:
                         procs[0].stdout.feed(BATCH_LINE)
+                    if case.get("burst"):
+                        # the application queues everything at once; the writer task finds a backlog when it wakes
+                        w.send_nowait(obj)
+                        continue
                     await w.send(obj)
                     if inbound.get(k_, -1) >= 0:
                         # the server's batch arrives d scheduler turns into the write of item k
@@ -228,7 +232,9 @@ def check(case: Dict[str, Any]) -> Outcome:
     raw_break = any(w is not None and len(json.dumps(w)) < 20000 and any(c in json.dumps(w, ensure_ascii=False) for c in ("\\n", "\\r", " ", "\u0085")) for _, w in built)
     nested_null = any(w is not None and "null" in json.dumps(w)[:20000] for _, w in built)
     out.nontrivial = bad_then_good or raw_break or nested_null or bool(case.get("inbound"))
-    out.classes = tuple(c for c, v in (("bad-then-good", bad_then_good), ("raw-line-break-char", raw_break), ("nested-null", nested_null), ("inbound-batches", bool(case.get("inbound"))),
+    if case.get("burst"):
+        out.nontrivial = True
+    out.classes = (("burst",) if case.get("burst") else ()) + tuple(c for c, v in (("bad-then-good", bad_then_good), ("raw-line-break-char", raw_break), ("nested-null", nested_null), ("inbound-batches", bool(case.get("inbound"))),
                                         ("huge-line", any(w is not None and len(json.dumps(w)) > 65536 for _, w in built))) if v) + (f"items:{min(len(items), 12)}",) + (("real-child",) if case.get("real") else ())
 
     data: bytes = state.get("data", b"")
@@ -359,6 +365,9 @@ def cases(draw):
                 tgt["deep"] = {"$deep": draw(st.sampled_from([100, 260, 300]))}
     case: Dict[str, Any] = {"items": its}
     if draw(st.integers(0, 3)) == 0:
+        case["burst"] = True
+        return case
+    if draw(st.integers(0, 3)) == 0:
         ks = sorted(set(draw(st.lists(st.integers(0, len(its) - 1), min_size=1, max_size=3))))
         case["inbound"] = [[k, draw(st.sampled_from([-1, 0, 1, 2, 3, 5]))] for k in ks]
     return case
@@ -399,6 +408,15 @@ def job_big_inbound(col: Collector, seed: int, tier: str) -> None:
                 col.record(case, check(case))
                 case = {"items": [small, form, small], "inbound": [[1, d], [2, 0]]}
                 col.record(case, check(case))
+    # bursts whose frames add up to more than 64 KiB at different points
+    for sizes in ([30000, 30000, 30000, 10], [10, 66000, 10, 10], [20000] * 7, [10, 10, 70000], [9000] * 12):
+        for form in ("dict", "typed", "str"):
+            items = []
+            for j, sz in enumerate(sizes):
+                w_ = {"jsonrpc": "2.0", "id": j, "method": "m", "params": {"blob": {"$big": sz}}}
+                items.append(["dict", w_] if form == "dict" else (["typed", "request", w_] if form == "typed" else ["str", w_, False, True]))
+            case = {"items": items, "burst": True}
+            col.record(case, check(case))
     col.exhaustive_parts.append("lines of 66,000 / 140,000 characters in 4 outbound forms x a server batch arriving at 8 scheduler offsets into the write")
 
 
